@@ -224,7 +224,8 @@ class MTSPEnv(RL4COEnvBase):
     def _get_reward(self, td, actions=None) -> TensorDict:
         # With minmax, get the maximum distance among subtours, calculated in the model
         if self.cost_type == "minmax":
-            return td["reward"].squeeze(-1)
+            reward = td["reward"]  # [batch] (or [batch, 1]): keep the batch dimension of a single instance
+            return reward.squeeze(-1) if reward.dim() > 1 else reward
 
         # With distance, same as TSP
         elif self.cost_type == "sum":
